@@ -202,6 +202,32 @@ def audit(layout, out):
                     except Exception as e:   # noqa
                         ev["error"] = "%s: %s" % (type(e).__name__, str(e)[:80])
                 fh.write(json.dumps(ev) + "\n")
+                if lo[1] == 8 and d["dtype"] in (4, 5) and "error" not in ev:
+                    # 64-bit integer members: a change in the upper half (a counter beyond 2^32) must be seen and must survive as well
+                    ev2 = {k: ev[k] for k in ("state", "field", "type", "off_desc", "off_hdr", "wall")}
+                    ev2["byte"] = 5
+                    with warnings.catch_warnings():
+                        warnings.simplefilter("ignore")
+                        B = A.copy()
+                        reattach(A, B, layout)
+                        p = addr(B) + lo[0]
+                        old_ = string_at(p, 8)
+                        if True:
+                            new_ = old_[:5] + bytes([old_[5] ^ 1]) + old_[6:]
+                            ctypes.memmove(p, new_, 8)
+                            ev2["reported"] = bool(cdiff(A, B))
+                            ev2["reported_py"] = not (A == B)
+                            rb = records(B, intern)
+                            ev2["changed"] = sorted({P.name_of_rank(x[0]) for x, y in zip(ra, rb) if x != y}) if len(ra) == len(rb) else ["<length>"]
+                            try:
+                                C = pickle.loads(pickle.dumps(B))
+                                reattach(B, C, layout)
+                                ev2["readback_ok"] = string_at(addr(C) + lo[0], 8) == new_
+                                ev2["roundtrip_equal"] = not bool(cdiff(B, C))
+                                ev2["roundtrip_stream_equal"] = records(C, intern) == rb
+                            except Exception as e:   # noqa
+                                ev2["error"] = "%s: %s" % (type(e).__name__, str(e)[:80])
+                            fh.write(json.dumps(ev2) + "\n")
 
 
 def elem_audit(layout, out):
@@ -262,6 +288,14 @@ def state_checks(out, layout):
                     for _ in range(4):
                         R.step()
                     ref_evol = (P.particles_digest(R), R.t)
+                    # a copy that differs from the original only by the presence of a persisted block (display settings added / IAS15
+                    # predictor arrays dropped) is different from it -- whichever operand carries the block
+                    for tag, fn in (("ds", clibrebound.reb_simulation_add_display_settings), ("ias15reset", clibrebound.reb_integrator_ias15_reset)):
+                        D = reproduce(S, "copy", layout, tmp)
+                        fn(ctypes.byref(D))
+                        if records(S, intern) != records(D, intern):
+                            ev["presence-leftright_" + tag] = bool(cdiff(S, D)) and not (S == D)
+                            ev["presence-rightleft_" + tag] = bool(cdiff(D, S)) and not (D == S)
                     for route in ("copy", "pickle", "file", "archive"):
                         Cc = reproduce(S, route, layout, tmp)
                         ev["eq_" + route] = not bool(cdiff(S, Cc))
